@@ -55,8 +55,8 @@ inductive Frag : Node → Prop
   | ifN (n : Node) (t : Tok) (pairs : List (Node × Node)) (ht : n.tok = some t) (h : n.name = "if")
       (hc : n.children = pairs.flatMap (fun p => [some p.1, some p.2]))
       (hg : ∀ p, p ∈ pairs → Frag p.1) (hb : ∀ p, p ∈ pairs → Frag p.2) : Frag n
-  | loopGuard (n : Node) (t : Tok) (c0 body : Node) (ht : n.tok = some t) (h : n.name = "loop")
-      (hc : n.children = [some c0, some body]) (h0 : c0.name = "guard") (f0 : Frag c0) (fb : Frag body) : Frag n
+  | loop (n : Node) (t : Tok) (c0 body : Node) (ht : n.tok = some t) (h : n.name = "loop")
+      (hc : n.children = [some c0, some body]) (f0 : Frag c0) (fb : Frag body) : Frag n
   | istring (n : Node) (t : Tok) (ht : n.tok = some t) (h : n.name = "string") : Frag n
   | inert (n : Node) (t : Tok) (ht : n.tok = some t)
       (h : n.name = "like" ∨ n.name = "kvp" ∨ n.name = "preset" ∨ n.name = "params" ∨ n.name = "funccall" ∨
@@ -209,7 +209,7 @@ macro_rules | `(tactic| np_lem) => `(tactic| fail "no lemma")
 macro "np1" : tactic => `(tactic| first
   | with_reducible np_lem
   | with_reducible exact NPQ.pure _ (fun _ => True) trivial
-  | (with_reducible refine NPQ.throw _ _ ?_) <;> (first | exact rtErr_ne_panic _ _ | assumption | simp [plain, raiseSig])
+  | (with_reducible refine NPQ.throw _ _ ?_) <;> (first | exact rtErr_ne_panic _ _ | assumption | simp [plain, raiseSig] | (simp only [] at *; assumption))
   | with_reducible exact NPQ.get'
   | (with_reducible refine NPQ.set _ ?_) <;> assumption
   | (with_reducible refine NPQ.modify _ ?_) <;> exact fun _ h => h
@@ -218,6 +218,7 @@ macro "np1" : tactic => `(tactic| first
   | with_reducible refine NPQ.foldlM _ _ (fun _ _ _ => ?_) _
   | with_reducible refine NPQ.mapM _ _ (fun _ _ => ?_)
   | with_reducible refine NPQ.bind (get : M St) _ Inv _ NPQ.get (fun _ _ => ?_)
+  | with_reducible refine NPQ.bind (attemptE _) _ _ _ (NPQ.attemptE _ (fun _ => True) ?_) (fun _ _ => ?_)
   | with_reducible refine NPQ.bind _ _ (fun _ => True) _ ?_ (fun _ _ => ?_)
   | with_reducible solve_by_elim (maxDepth := 6)
   | split
@@ -415,6 +416,32 @@ theorem guardLoop_np (guard body : M Val) (hg : NP guard) (hb : NP body) : ∀ k
       have he : e ≠ Sig.panic := hr
       np
 
+/-- `match ← attemptE m with | .ok _ => … | .error e => …` where the error branch may rethrow `e` -/
+macro "np_att " h:term : tactic => `(tactic| (
+  refine NPQ.bind _ _ _ _ (NPQ.attemptE _ _ $h) (fun r hr => ?_)
+  cases r with
+  | ok a => dsimp only []; np
+  | error e => have he : e ≠ Sig.panic := hr; dsimp only []; np))
+
+theorem iterLoop_np {σ : Type} (next : σ → M (Val × σ)) (bnd : Val → M Unit) (body : M Val)
+    (hn : ∀ s, NP (next s)) (hb : ∀ v, NP (bnd v)) (hbody : NP body) : ∀ k s, NP (iterLoop next bnd body k s) := by
+  intro k; induction k with
+  | zero => intro s; unfold iterLoop; np
+  | succ k ih =>
+    intro s
+    unfold iterLoop
+    refine NPQ.bind _ _ _ _ (NPQ.attemptE _ _ (hn s)) (fun r hr => ?_)
+    cases r with
+    | ok p =>
+      obtain ⟨v, s'⟩ := p
+      dsimp only []
+      refine NPQ.bind _ _ (fun _ => True) _ (hb v) (fun _ _ => ?_)
+      np_att hbody
+    | error e => have he : e ≠ Sig.panic := hr; dsimp only []; np
+
+theorem bindLoopVars_np (ls : Nat) (n : Node) (vars : List (List Nat)) (item : Val) : NP (bindLoopVars ls n vars item) := by
+  unfold bindLoopVars; np
+
 theorem withFreshIs_np {α : Type} (m : M α) (hm : NP m) : NP (withFreshIs m) := by
   unfold withFreshIs
   refine NPQ.bind (get : M St) _ Inv _ NPQ.get (fun s hs => ?_)
@@ -430,6 +457,10 @@ theorem withFreshIs_np {α : Type} (m : M α) (hm : NP m) : NP (withFreshIs m) :
 
 theorem scopeName_np (n : Node) (t : Tok) (ht : n.tok = some t) : NP (scopeName n) := by
   unfold scopeName; simp [tokOf, ht]; np
+
+theorem Frag.in_inv {n : Node} (h : Frag n) (hn : n.name = "in") :
+    ∃ a b : Node, n.children = [some a, some b] ∧ Frag a ∧ Frag b := by
+  cases h <;> first | exact ⟨_, _, by assumption, by assumption, by assumption⟩ | simp_all
 
 theorem Good.false {cn : Node} (h : Good cn) : False := by
   obtain ⟨kids, _, hl, fc, hfc, hn⟩ := h
@@ -675,14 +706,47 @@ theorem ifBranches_any (sc : Nat) : ∀ (pairs : List (Node × Node)), (∀ p, p
       · subst hq
         exact ⟨ihs k (by omega) sc _ (hg p (by simp)), ihs k (by omega) sc _ (hb p (by simp))⟩
       · exact hl q hq
-theorem evalLoopGuard_step (sc : Nat) (n c0 body : Node) (t : Tok) (ht : n.tok = some t)
-    (hc : n.children = [some c0, some body]) (h0 : c0.name = "guard") (f0 : Frag c0) (fb : Frag body) :
+theorem iterNext_any (ls : Nat) (loopNode it : Node) (fit : Frag it) :
+    ∀ k, k ≤ g + 1 → ∀ s, NP (iterNext k ls loopNode it s) := by
+  intro k hk s
+  cases k with
+  | zero => unfold iterNext; np
+  | succ k =>
+    have ihe := ihs k (by omega)
+    unfold iterNext; np
+theorem evalLoop_step (sc : Nat) (n c0 body : Node) (t : Tok) (ht : n.tok = some t)
+    (hc : n.children = [some c0, some body]) (f0 : Frag c0) (fb : Frag body) :
     NP (evalLoop (g+1) sc n) := by
   have ih := ihs g (Nat.le_refl g)
-  unfold evalLoop; simp [hc, child, h0]
-  refine NPQ.bind _ _ (fun _ => True) _ (scopeName_np n t ht) (fun _ _ => ?_)
-  refine NPQ.bind _ _ (fun _ => True) _ (newChild_np _ _) (fun ls _ => ?_)
-  exact withFreshIs_np _ (guardLoop_np _ _ (ih ls c0 f0) (ih ls body fb) g)
+  by_cases hin : c0.name = "in"
+  · obtain ⟨iv, it, hcc, fiv, fit⟩ := Frag.in_inv f0 hin
+    unfold evalLoop; simp [hc, child, hin, hcc]
+    refine NPQ.bind _ _ (fun _ => True) _ ?_ (fun vars _ => ?_)
+    · split
+      · np
+      · split
+        · rename_i hli
+          obtain ⟨lk, hlk, hlf⟩ := Frag.list_inv fiv hli
+          rw [hlk]
+          refine NPQ.mapM _ _ (fun a ha => ?_)
+          obtain ⟨c, hcm, rfl⟩ := List.mem_map.mp ha
+          have fc := hlf c hcm
+          dsimp only []; np
+        · np
+    · refine NPQ.bind _ _ (fun _ => True) _ (scopeName_np n t ht) (fun _ _ => ?_)
+      refine NPQ.bind _ _ (fun _ => True) _ (newChild_np _ _) (fun ls _ => ?_)
+      refine withFreshIs_np _ ?_
+      refine NPQ.bind _ _ _ _ (NPQ.attemptE _ _ (ih ls it fit)) (fun x hx => ?_)
+      refine NPQ.bind _ _ (fun _ => True) _ ?_ (fun start _ => ?_)
+      · np
+      · exact iterLoop_np _ _ _ (fun s => iterNext_any g ihs ls n it fit g (by omega) s)
+          (fun v => bindLoopVars_np _ _ _ _) (ih ls body fb) g _
+  · unfold evalLoop; simp [hc, child, hin]
+    refine NPQ.bind _ _ (fun _ => True) _ (scopeName_np n t ht) (fun _ _ => ?_)
+    refine NPQ.bind _ _ (fun _ => True) _ (newChild_np _ _) (fun ls _ => ?_)
+    split
+    · exact withFreshIs_np _ (guardLoop_np _ _ (ih ls c0 f0) (ih ls body fb) g)
+    · np
 theorem interpolate_any (sc : Nat) (n : Node) (t : Tok) (ht : n.tok = some t) :
     ∀ k, k ≤ g + 1 → ∀ rest, NP (interpolate k sc n rest) := by
   intro k; induction k with
@@ -791,11 +855,11 @@ theorem eval_frag_np : ∀ (f sc : Nat) (n : Node), Frag n → NP (eval f sc n) 
         refine NPQ.bind _ _ (fun _ => True) _ (newChild_np _ _) (fun bs _ => ?_)
         rw [hc]
         exact NPQ.bind _ _ _ _ (ifBranches_any f ihs bs pairs hg hb f (by omega)) (fun l hl => ifChain_np l hl)
-      | loopGuard n t c0 body ht h hc h0 f0 fb =>
+      | loop n t c0 body ht h hc f0 fb =>
         unfold eval; simp [h]
         cases f with
         | zero => unfold evalLoop; np
-        | succ f' => exact evalLoopGuard_step f' (fun g'' hg => ihs g'' (by omega)) sc n c0 body t ht hc h0 f0 fb
+        | succ f' => exact evalLoop_step f' (fun g'' hg => ihs g'' (by omega)) sc n c0 body t ht hc f0 fb
       | istring n t ht h =>
         unfold eval; simp [h, tokOf, ht]
         split
